@@ -33,6 +33,7 @@ fn plan(prop: &str, tier: Tier) -> Option<Plan> {
         "C04" => (checks::c04::spaces(tier), checks::c04::meta(tier)),
         "C05" => (checks::c05::spaces(tier), checks::c05::meta(tier)),
         "C06" => (checks::c06::spaces(tier), checks::c06::meta(tier)),
+        "C07" => (checks::c07::spaces(tier), checks::c07::meta(tier)),
         "C08" => (checks::c08::spaces(tier), checks::c08::meta(tier)),
         "C10" => (checks::c10::spaces(tier), checks::c10::meta(tier)),
         "C12" => (checks::c12::spaces(tier), checks::c12::meta(tier)),
